@@ -337,7 +337,11 @@ class Interp:
             if not quiet:
                 self.emit(s, ('setitem', _text(t.value), idx if is_concrete(idx) and idx is not None else _text(t.slice),
                               v if is_concrete(v) or isinstance(v, (Inst, Sym)) else _text(getattr(node, 'value', t))))
-            self._invalidate(_text(t.value), s)
+            root = _text(t.value).split('.')[0].split('[')[0]
+            for k in [k for k in s.assumed if _mentions(k, _text(t.value), root)]:
+                del s.assumed[k]
+            if not stored and is_concrete(idx) and idx is not None:
+                s.env[txt] = v
         else:
             raise AnalysisError('assignment target %s not modelled' % type(t).__name__)
 
@@ -977,6 +981,9 @@ class Interp:
         if isinstance(fval, tuple) and len(fval) == 3 and fval[0] == 'boundmethod':
             _, recv, meth = fval
             return self._builtin_method(recv, meth, args, kwargs)
+        if isinstance(n.func, ast.Name) and n.func.id == 'len' and 'len' not in s.env and len(args) == 1 \
+           and isinstance(args[0], (list, tuple, dict)) and not kwargs:
+            return len(args[0])
         if isinstance(n.func, ast.Name) and n.func.id not in s.env:
             b = _PURE.get(n.func.id)
             if b is not None and all(is_concrete(a) for a in args) and not kwargs:
